@@ -18,7 +18,9 @@ type c02ReadCase struct {
 }
 
 type c02WriteCase struct {
-	Doc vttDoc `json:"doc"`
+	// Foreign: the list carries metadata of other formats; the file-level helper is exercised as well
+	Foreign bool   `json:"foreign,omitempty"`
+	Doc     vttDoc `json:"doc"`
 }
 
 func init() {
@@ -51,11 +53,14 @@ func checkC02Read(c c02ReadCase) string {
 	if m := diffVTT(want, got, false, false); m != "" {
 		return fmt.Sprintf("%s\n--- document (%d bytes) ---\n%q", m, len(b), clip(string(b), 700))
 	}
-	return ""
+	return rereadStable("vtt", b, readOpts{}, s)
 }
 
 func checkC02Write(c c02WriteCase) string {
 	s := toSubtitlesVTT(c.Doc)
+	if c.Foreign {
+		addForeignMetadata("vtt", s)
+	}
 	var buf bytes.Buffer
 	err := s.WriteToWebVTT(&buf)
 	if len(c.Doc.Cues) == 0 {
@@ -86,6 +91,11 @@ func checkC02Write(c c02WriteCase) string {
 	}
 	if m := diffVTT(c.Doc, ind, true, true); m != "" {
 		return fmt.Sprintf("independent decoder: %s\n--- output ---\n%q", m, clip(string(out), 700))
+	}
+	if c.Foreign {
+		if m := fileWriteAgrees("vtt", s); m != "" {
+			return m
+		}
 	}
 	return ""
 }
@@ -185,7 +195,7 @@ func TestC02(t *testing.T) {
 		verdict(rt, "C02", "c02read", c, checkC02Read)
 	})
 	rapidCheck(t, "C02/write", tier(2000, 200000), func(rt *rapid.T) {
-		c := c02WriteCase{Doc: genVTTDoc(rt, true)}
+		c := c02WriteCase{Doc: genVTTDoc(rt, true), Foreign: rapid.IntRange(0, 2).Draw(rt, "foreign") == 0}
 		nt, ls := c02Labels(c.Doc, nil)
 		ev.Case(nt, fmt.Sprintf("w%v", c.Doc), append(ls, "write")...)
 		if nt && len(c.Doc.Cues) <= 2 {
